@@ -369,7 +369,13 @@ func TestVerifC30HTTP(t *testing.T) {
 			}
 			defer resp.Body.Close()
 			status = resp.StatusCode
-			got, _ = io.ReadAll(resp.Body) // a short/aborted body still counts: whatever arrived was sent
+			var rerr error
+			got, rerr = io.ReadAll(resp.Body)
+			if rerr != nil {
+				// a transport hiccup is not evidence about the handler; the recorder cases judge the same paths
+				r.Count("loopback_transport_errors", 1)
+				status = -1
+			}
 		}()
 		if status == -1 {
 			r.Case(verifkit.Hash(ci, "aborted"), false)
